@@ -172,8 +172,20 @@ def define_user_class(name):
 
 
 def wrap(d, depth):
+    # the node under test sits among valid siblings — leaves and whole sub-graphs, before and after it both in insertion order and
+    # in name order (a file returns members by name): a rejection must not depend on what else the enclosing graph contains
+    def sub():
+        return {"type": "NIRGraph", "nodes": {"s": {"type": "Scale", "scale": np.ones(2, dtype="float32"), "metadata": {}}},
+                "edges": [("s", "s")], "metadata": {}}
     for i in range(depth):
-        d = {"type": "NIRGraph", "nodes": {f"lvl{i}": d}, "edges": [], "metadata": {}}
+        nodes = {}
+        if i % 2 == 0:
+            nodes["a_sub"] = sub()
+            nodes["a_leaf"] = {"type": "Scale", "scale": np.ones(3, dtype="float32"), "metadata": {}}
+        nodes[f"lvl{i}"] = d
+        nodes["z_leaf"] = {"type": "Threshold", "threshold": np.ones(2, dtype="float32"), "metadata": {}}
+        nodes["z_sub"] = sub()
+        d = {"type": "NIRGraph", "nodes": nodes, "edges": [], "metadata": {}}
     return d
 
 
